@@ -13,5 +13,16 @@ SimNext ==
     \/ \E v \in Val, m \in msgs : Deliver(m, v) /\ hist' = Append(hist, [op |-> "deliver", type |-> m.type, from |-> m.from, view |-> m.view, to |-> v])
     \/ \E S \in {{}} \cup {{x} : x \in Val} : SetSilent(S) /\ Cardinality(S) <= F /\ hist' = Append(hist, [op |-> "silent", set |-> S])
 SimSpec == SimInit /\ [][SimNext]_<<vars, hist>>
-Emit == Len(hist) # Depth \/ PrintT(<<"@@HIST@@", ToJson(hist)>>)
+Emit == Len(hist) # Depth \/ PrintT(<<"@@HIST@@", ToJson([goal |-> "depth", hist |-> hist])>>)
+
+(* Scenario goals: used as "invariants" whose falsification is the goal; when a random walk first reaches a goal
+   state its schedule is printed.  They give the binding the situations the safety argument is about. *)
+Acc == {v \in Val : accepted[v] # None}
+G1 == \E x \in Val, y \in Acc : commitV[x] = 0 /\ accepted[y] >= 1          \* stale commit of view 0 + block of a later view
+G2 == \E y \in Acc : accepted[y] >= 1                                        \* a view change led to a block
+G3 == Cardinality(Acc) = M /\ silent # {}                                    \* exactly a quorum accepted while somebody is silent
+G4 == \E x, y \in Val : commitV[x] # None /\ commitV[y] # None /\ commitV[x] # commitV[y]  \* commits in different views
+Reached(g) == IF g = "G1" THEN G1 ELSE IF g = "G2" THEN G2 ELSE IF g = "G3" THEN G3 ELSE G4
+GoalEmit == \A g \in {"G1", "G2", "G3", "G4"} :
+               (Reached(g) /\ hist # <<>>) => PrintT(<<"@@HIST@@", ToJson([goal |-> g, hist |-> hist])>>)
 =============================================================================
